@@ -204,6 +204,12 @@ func (tree *ParserT) parseExpression(exec, incLogicalOps bool) error {
 			if err != nil {
 				return err
 			}
+			if branch.charPos < 0 {
+				// the sub expression ended before consuming anything (eg `(` at the end of
+				// the code, `(;`, `(#`). Without this the cursor moves backwards and the
+				// opening parenthesis is parsed again forever
+				return raiseError(tree.expression, nil, tree.charPos, "missing closing parenthesis in sub expression")
+			}
 
 			if exec {
 				dt, err := branch.executeExpr()
@@ -486,6 +492,9 @@ func (tree *ParserT) parseSubExpression(exec bool) (any, error) {
 	err := branch.parseExpression(exec, true)
 	if err != nil {
 		return nil, err
+	}
+	if branch.charPos < 0 {
+		return nil, raiseError(tree.expression, nil, tree.charPos, "missing closing parenthesis in sub expression")
 	}
 	tree.charPos += branch.charPos - 1
 	if exec {
